@@ -283,7 +283,10 @@ fn edit_history_script(rng: &mut SplitMix, thorough: bool) -> NucleoScript {
         }
     }
     ui.push(UiOp::Quiesce);
-    let sched = SchedCfg::generate(rng, 400, 1, 400_000);
+    // every full rescore of a killer batch is a few ten thousand scheduling points (the tie-break
+    // looks both items up), a long edit history of them needs the budget of the big batches
+    let killer = writers.iter().flatten().any(|o| matches!(o, WOp::ExtendKiller { .. }));
+    let sched = SchedCfg::generate(rng, 400, 1, if killer { 60_000_000 } else { 400_000 });
     NucleoScript {
         weak: None,
         pool_threads: if rng.below(60) == 0 { 0 } else { pick(rng, &[1u32, 2, 3]) },
